@@ -201,6 +201,9 @@ def rule_table(rep: Report, rid="C19.table") -> None:
                         pass
                 if t[0] == "call" and t[1] in ("re.match", "re.fullmatch") and t[2] and is_const(t[2][0]):
                     pats.append(t[2][0][1])
+                if t[0] == "attr" and t[2] in ("match", "fullmatch") and isinstance(t[1], tuple) and t[1] and t[1][0] == "regex" and is_const(t[1][1]) \
+                        and (is_const(t[1][2], None) or is_const(t[1][2], 0)):
+                    pats.append(t[1][1][1])        # the bound match method of a compiled pattern, used as the predicate
             ok_sep = bool(pats) and all(regexnf.same(p0, 0, r"^:?-+:?$") for p0 in pats) and ("prop", "table_cells", line) in allt
         rep.ob(rid, "a GFM separator row (any cell of the form :?-+:?) is not a table row", ok_sep, **kw, expected="if any cell matches ^:?-+:?$: return False",
                found=[(fmt(c, I)[:120], p) for c, p in sep])
